@@ -378,3 +378,106 @@ func TestMapStream(t *testing.T) {
 	theT = t
 	vk.Run(t, suite, "map-stream", 2000, genPlan(true), runReps)
 }
+
+// ---------------------------------------------------------------- storm: long zero-latency runs, real parallelism
+//
+// The scripted plans above are short (tens of items) and shaped by fake latencies. A hand-off between
+// the feeder, the workers and the consumer that goes wrong only when two of them run at the very same
+// instant needs many items and nothing that slows them down: tens of thousands of items, f returns at
+// once, every (parallelism, buffer) shape. In a bubble a lost wakeup is decided exactly: everything is
+// blocked for good, which synctest reports. The order / exactly-once / bound oracles run as well.
+
+type StormPlan struct {
+	Stream bool `json:"stream"`
+	N      int  `json:"n"`
+	Par    int  `json:"par"`
+	Buf    int  `json:"buf"`
+	Yield  int  `json:"yield"` // the consumer calls Gosched every Yield items (0 = never)
+}
+
+func genStorm(t *rapid.T) StormPlan {
+	return StormPlan{Stream: rapid.IntRange(0, 2).Draw(t, "stream") == 0, N: rapid.SampledFrom([]int{5000, 20000, 20000, 40000}).Draw(t, "n"),
+		Par: rapid.SampledFrom([]int{1, 2, 2, 4, 8}).Draw(t, "par"), Buf: rapid.SampledFrom([]int{0, 0, 1, 2, 8}).Draw(t, "buf"),
+		Yield: rapid.SampledFrom([]int{0, 1, 7}).Draw(t, "yield")}
+}
+
+func runStorm(p StormPlan) (vk.Outcome, error) {
+	var out vk.Outcome
+	err := bubble(func() error {
+		src := &countIter{n: p.N}
+		var inFlightMax atomic.Int64
+		var yielded atomic.Int64
+		note := func() {
+			if d := src.pulled.Load() - yielded.Load(); d > inFlightMax.Load() {
+				inFlightMax.Store(d)
+			}
+		}
+		check := func(i, v int) error {
+			if v != fval(i) {
+				return vk.Violf("order", "result #%d is %d, want f(item %d) = %d (n=%d par=%d buf=%d)", i, v, i, fval(i), p.N, p.Par, p.Buf)
+			}
+			return nil
+		}
+		if !p.Stream {
+			it := parallel.MapIterator[int, int](src, p.Par, p.Buf, func(x int) int { return fval(x) })
+			for i := 0; ; i++ {
+				v, ok := it.Next()
+				if !ok {
+					if i != p.N {
+						return vk.Violf("lost", "MapIterator ended after %d of %d results", i, p.N)
+					}
+					break
+				}
+				if err := check(i, v); err != nil {
+					return err
+				}
+				yielded.Add(1)
+				note()
+				if p.Yield > 0 && i%p.Yield == 0 {
+					runtime.Gosched()
+				}
+			}
+		} else {
+			s := parallel.MapStream[int, int](context.Background(), stream.FromIterator[int](src), p.Par, p.Buf,
+				func(_ context.Context, x int) (int, error) { return fval(x), nil })
+			for i := 0; ; i++ {
+				v, err := s.Next(context.Background())
+				if err == stream.End {
+					if i != p.N {
+						return vk.Violf("lost", "MapStream ended after %d of %d results", i, p.N)
+					}
+					break
+				}
+				if err != nil {
+					return vk.Violf("spurious-error", "MapStream: %v", err)
+				}
+				if err := check(i, v); err != nil {
+					return err
+				}
+				yielded.Add(1)
+				note()
+				if p.Yield > 0 && i%p.Yield == 0 {
+					runtime.Gosched()
+				}
+			}
+			s.Close()
+		}
+		if lim := int64(p.Buf + p.Par + 1); inFlightMax.Load() > lim {
+			return vk.Violf("bound", "%d source items taken but not yet yielded, bound is buffer %d + parallelism %d + 1", inFlightMax.Load(), p.Buf, p.Par)
+		}
+		return nil
+	})
+	out.NonTrivial = p.Par >= 2
+	out.Execs = 1
+	if p.Stream {
+		out.Label("storm-stream")
+	} else {
+		out.Label("storm-iterator")
+	}
+	return out, err
+}
+
+func TestMapStorm(t *testing.T) {
+	theT = t
+	vk.Run(t, suite, "map-storm", 12, genStorm, runStorm)
+}
